@@ -107,6 +107,7 @@ def init_security(config: ConfigParser) -> None:
     if config.getboolean("pygopherd", "usechroot"):
         chroot_user = config.get("pygopherd", "root")
         os.chroot(chroot_user)
+        os.chdir("/")
         logger.log(f"Chrooted to {chroot_user}")
         config.set("pygopherd", "root", "/")
 
